@@ -1132,6 +1132,50 @@ impl Harness {
                 self.session.as_mut().unwrap().fs_step(&self.shared);
                 self.with_exit("ok")
             }
+            "torn" => {
+                // the queued fs operation starts and the process dies in the middle of it: if it
+                // was a write, only a prefix of the data reaches the file it was writing (a
+                // rename is atomic: it happened or it did not)
+                // which file does the operation write? both files get an old modification time
+                // first; a rename carries the temp file's (old) time over, a write sets a new one
+                let dir = self.session.as_ref().unwrap().dir.clone();
+                let sentinel = std::time::UNIX_EPOCH + Duration::from_secs(86_400);
+                for name in ["state.json", "state.json.tmp"] {
+                    if let Ok(f) = std::fs::OpenOptions::new().write(true).open(dir.join(name)) {
+                        let _ = f.set_modified(sentinel);
+                    }
+                }
+                self.session.as_mut().unwrap().fs_step(&self.shared);
+                if let Some(e) = self.check_exit() {
+                    return format!("ok:none {e}");
+                }
+                // (registers the transaction number of a freshly written `prepared` state in
+                // the same order as a plain `fs` step would)
+                let _ = self.dump();
+                let written = |name: &str| {
+                    std::fs::metadata(dir.join(name))
+                        .and_then(|m| m.modified())
+                        .map_or(false, |t| t != sentinel)
+                };
+                let which = if written("state.json.tmp") {
+                    "tmp"
+                } else if written("state.json") {
+                    "file"
+                } else {
+                    "none"
+                };
+                self.session.take().unwrap().kill(&self.shared);
+                let mut w = self.shared.lock().unwrap();
+                let cut = |b: &Option<Vec<u8>>| {
+                    b.as_ref().map(|b| b[..b.len().saturating_sub(1) / 2].to_vec())
+                };
+                match which {
+                    "tmp" => w.tmp = cut(&w.tmp),
+                    "file" => w.file = cut(&w.file),
+                    _ => {}
+                }
+                format!("ok:{which}")
+            }
             "fetch" => {
                 let Some(p) = self.take_pending(|k| matches!(k, PKind::Fetch(_))) else {
                     return "err:none".to_string();
@@ -1556,6 +1600,54 @@ fn single_crashes(r: &mut Runner, base: u64, blocks: u64, eager: bool, stride: u
     }
 }
 
+/// the process dies in the middle of each of its fs operations (torn write of whatever file
+/// the operation was writing), then recovery
+fn torn_writes(r: &mut Runner, blocks: u64, eager: bool) {
+    let canon = canonical(r, 0, blocks, eager);
+    // a second run: crash right after the first broadcast was accepted, the transaction is
+    // confirmed (even runs: lost) while down, recovery through the start-up confirmation
+    let mut runs = vec![canon.clone()];
+    for lost in [false, true] {
+        let Some(k) = canon.iter().position(|op| op == "bcast ok") else {
+            continue;
+        };
+        let mut ops: Vec<String> = canon[..=k].to_vec();
+        for op in &ops {
+            r.run(op);
+        }
+        let t = r.h.obs().mempool.first().copied();
+        let mut rest = vec!["crash".to_string()];
+        if let Some(t) = t {
+            rest.push(format!("{} t{t}", if lost { "drop" } else { "include" }));
+        }
+        for op in &rest {
+            r.run(op);
+        }
+        ops.extend(rest);
+        let mut auto = Auto::new(eager);
+        while let Some(op) = auto.next(r) {
+            r.run(&op);
+            ops.push(op);
+        }
+        runs.push(ops);
+    }
+    for ops in runs {
+        for k in 0..ops.len() {
+            if ops[k] != "fs" {
+                continue;
+            }
+            for op in &ops[..k] {
+                r.run(op);
+            }
+            if r.h.session.is_none() {
+                continue;
+            }
+            r.run("torn");
+            Auto::new(eager).drive(r);
+        }
+    }
+}
+
 /// two crash points: the second one `gap` controller steps into the recovery from the first
 fn double_crashes(r: &mut Runner, blocks: u64, eager: bool, stride: usize, gaps: &[u32]) {
     let ops = canonical(r, 0, blocks, eager);
@@ -1717,6 +1809,9 @@ fn random_session(r: &mut Runner, rng: &mut Rng, len: u32) {
             let celestia_held = o.bcast.is_some() || o.gettx.is_some();
             let mut cand: Vec<(u64, &str)> = vec![];
             cand.push((if r.fs_todo > 0 { 55 } else { 3 }, "fs"));
+            if r.fs_todo > 0 {
+                cand.push((4, "torn"));
+            }
             if o.fetch.is_some() {
                 cand.push((22, "fetch"));
             }
@@ -1837,6 +1932,7 @@ fn driver() {
             }
             let thorough = common::is_thorough();
             file_scenarios(&mut r);
+            torn_writes(&mut r, if thorough { 4 } else { 2 }, true);
             // every crash point of a 6-block run x 4 outcomes of the in-flight BlobTx
             single_crashes(&mut r, 0, 6, true, 1);
             single_crashes(&mut r, 0, if thorough { 6 } else { 3 }, false, 1);
